@@ -279,6 +279,50 @@ theorem logLikelihood_composes (sim : List ℝ → List ℝ → List ℝ → Lis
   simp only [List.map_cons, List.map_nil, List.sum_cons, List.sum_nil, add_zero]
   exact (key _ (trajTerm_nonneg sim p measIdx base tr)).symm
 
+private theorem terms_sum_nonneg (sim : List ℝ → List ℝ → List ℝ → List (List ℝ)) (p : ℝ) (measIdx : List Nat)
+    (base : List ℝ) (trajs : List (Traj ℝ)) : 0 ≤ (trajs.map (trajTerm sim p measIdx base)).sum := by
+  apply List.sum_nonneg
+  intro x hx
+  obtain ⟨tr, _, rfl⟩ := List.mem_map.mp hx
+  exact trajTerm_nonneg sim p measIdx base tr
+
+/-- **the log-likelihood is never positive** (it is minus a norm of the residuals). -/
+theorem logLikelihood_nonpos (sim : List ℝ → List ℝ → List ℝ → List (List ℝ)) (p : ℝ) (measIdx : List Nat)
+    (base : List ℝ) (trajs : List (Traj ℝ)) : logLikelihood sim p measIdx base trajs ≤ 0 := by
+  rw [logLikelihood_formula]
+  have : 0 ≤ Transc.pow ((trajs.map (trajTerm sim p measIdx base)).sum) (1 / p) :=
+    Real.rpow_nonneg (terms_sum_nonneg sim p measIdx base trajs) _
+  linarith
+
+/-- **more data can only lower it**: adding a trajectory to the data set never raises the log-likelihood (norm order
+`p > 0`), whatever the simulator returns for it. -/
+theorem logLikelihood_antitone (sim : List ℝ → List ℝ → List ℝ → List (List ℝ)) (p : ℝ) (hp : 0 < p) (measIdx : List Nat)
+    (base : List ℝ) (tr : Traj ℝ) (trajs : List (Traj ℝ)) :
+    logLikelihood sim p measIdx base (tr :: trajs) ≤ logLikelihood sim p measIdx base trajs := by
+  rw [logLikelihood_formula, logLikelihood_formula, List.map_cons, List.sum_cons]
+  have h0 := terms_sum_nonneg sim p measIdx base trajs
+  have h1 := trajTerm_nonneg sim p measIdx base tr
+  have : Transc.pow ((trajs.map (trajTerm sim p measIdx base)).sum) (1 / p)
+      ≤ Transc.pow (trajTerm sim p measIdx base tr + (trajs.map (trajTerm sim p measIdx base)).sum) (1 / p) :=
+    Real.rpow_le_rpow h0 (by linarith) (by positivity)
+  linarith
+
+/-- **a perfect fit scores exactly zero**: if the simulation reproduces every data point of every trajectory (all
+residual terms vanish), the log-likelihood is `0`, the maximum `logLikelihood_nonpos` allows. -/
+theorem logLikelihood_perfect (sim : List ℝ → List ℝ → List ℝ → List (List ℝ)) (p : ℝ) (hp : 0 < p) (measIdx : List Nat)
+    (base : List ℝ) (trajs : List (Traj ℝ)) (h : ∀ tr ∈ trajs, trajTerm sim p measIdx base tr = 0) :
+    logLikelihood sim p measIdx base trajs = 0 := by
+  rw [logLikelihood_formula]
+  have : (trajs.map (trajTerm sim p measIdx base)).sum = 0 := by
+    apply List.sum_eq_zero
+    intro x hx
+    obtain ⟨tr, htr, rfl⟩ := List.mem_map.mp hx
+    exact h tr htr
+  rw [this]
+  show -(Real.rpow 0 (1 / p)) = 0
+  have : Real.rpow 0 (1 / p) = 0 := Real.zero_rpow (by positivity)
+  rw [this, neg_zero]
+
 end composition
 
 end Bioscrape.C15
